@@ -151,6 +151,11 @@ RunTask(D, s, t) ==
 RECURSIVE RunSeq(_, _, _)
 RunSeq(D, s, q) == IF q = <<>> THEN s ELSE RunSeq(D, RunTask(D, s, Head(q)), Tail(q))
 
+(* a set as some sequence (labels carry sequences: TLC 1.8 fails to spill lazily built set values of the   *)
+(* unfingerprinted observation variable to its disk queue)                                               *)
+RECURSIVE AsSeq(_)
+AsSeq(S) == IF S = {} THEN <<>> ELSE LET x == CHOOSE y \in S : TRUE IN <<x>> \o AsSeq(S \ {x})
+
 RECURSIVE PermSeqs(_)
 PermSeqs(S) == IF S = {} THEN {<<>>} ELSE UNION {{<<x>> \o q : q \in PermSeqs(S \ {x})} : x \in S}
 
@@ -193,7 +198,7 @@ WellDeclared(D, R) == \A u \in R : \A t \in Act(D, R) : Produces(D, u, t) => Rep
 (* The update that follows the definitional phase: D1 new definitions, m1 contents after the write. *)
 (* The canonical order is only a representative: Confluent asserts every allowed order agrees.     *)
 Update(a, l, D1, m1) ==
-  LET T   == Triggered(D1, reg, l)
+  LET T   == TLCEval(Triggered(D1, reg, l))
       ord == Allowed(D1, T)
       s0  == [m |-> m1, kp |-> kprev]
       res == {RunSeq(D1, s0, q) : q \in ord}
@@ -203,10 +208,10 @@ Update(a, l, D1, m1) ==
      /\ mem' = s1.m
      /\ kprev' = s1.kp
      /\ defs' = D1
-     /\ ghost' = ghost \ {l}
+     /\ ghost' = {x \in Leaf : x \in ghost /\ x # l}
      /\ UNCHANGED <<reg, frozen>>
-     /\ last' = a @@ [exc |-> "none", trig |-> T, prec |-> Prec(D1, T), cyc |-> StructCyclic(D1, T),
-                      idx |-> Idx(D1, reg)]
+     /\ last' = TLCEval(a @@ [exc |-> "none", trig |-> AsSeq(T), prec |-> AsSeq(Prec(D1, T)), cyc |-> StructCyclic(D1, T),
+                              idx |-> Idx(D1, reg)])
 
 Refuse(a) == /\ Unchanged
              /\ last' = a @@ [exc |-> "ValueError"]
@@ -246,7 +251,7 @@ Unregister(t) ==
      ELSE /\ defs' = IF t \in Leaf THEN [defs EXCEPT ![t] = NoDef] ELSE defs
           /\ reg' = reg \ {t}
           /\ UNCHANGED <<mem, kprev, frozen, ghost>>
-          /\ last' = a @@ [exc |-> "none", idx |-> Idx(defs', reg')]
+          /\ last' = TLCEval(a @@ [exc |-> "none", idx |-> Idx(defs', reg')])
 
 (* manager.register(FunctionTask / LinearKnob); the knob constructor samples its source *)
 RegisterTask(t) ==
@@ -259,7 +264,7 @@ RegisterTask(t) ==
      ELSE /\ reg' = reg \cup {t}
           /\ kprev' = IF TaskSpec[t].kind = "knob" THEN [kprev EXCEPT ![t] = mem[TaskSpec[t].src]] ELSE kprev
           /\ UNCHANGED <<mem, defs, frozen, ghost>>
-          /\ last' = a @@ [exc |-> "none", idx |-> Idx(defs, reg')]
+          /\ last' = TLCEval(a @@ [exc |-> "none", idx |-> Idx(defs, reg')])
 
 Freeze   == /\ ~frozen /\ frozen' = TRUE  /\ UNCHANGED <<mem, defs, reg, kprev, ghost>> /\ last' = [a |-> "Freeze", exc |-> "none"]
 Unfreeze == /\ frozen  /\ frozen' = FALSE /\ UNCHANGED <<mem, defs, reg, kprev, ghost>> /\ last' = [a |-> "Unfreeze", exc |-> "none"]
@@ -267,27 +272,27 @@ Unfreeze == /\ frozen  /\ frozen' = FALSE /\ UNCHANGED <<mem, defs, reg, kprev, 
 (* refresh / cleanup / verify / switching to clone(): never change primary state.  A frozen manager may *)
 (* refuse refresh (ValueError) or perform it; either way nothing observable changes (exc "any").        *)
 Stutter(kind) == /\ Unchanged
-                 /\ last' = [a |-> "Stutter", kind |-> kind,
-                             exc |-> IF frozen /\ kind = "refresh" THEN "noneOrValueError" ELSE "none",
-                             idx |-> Idx(defs, reg)]
+                 /\ last' = TLCEval([a |-> "Stutter", kind |-> kind,
+                                     exc |-> IF frozen /\ kind = "refresh" THEN "noneOrValueError" ELSE "none",
+                                     idx |-> Idx(defs, reg)])
 
 ---------------------------------------------------------------------------
 (* Faults (C18).  Position k = 0: the write of the assigned location itself raises; k >= 1: the first     *)
 (* write of the k-th scheduled task raises.  Definitions are those after the definitional phase, the     *)
 (* first k-1 scheduled tasks have taken effect, nothing after.  One successor per allowed order.         *)
 FaultUpdate(a, l, D1, m1) ==
-  LET T == Triggered(D1, reg, l) IN
+  LET T == TLCEval(Triggered(D1, reg, l)) IN
   \E q \in Allowed(D1, T) : \E k \in 0..Len(q) :
     LET s0 == [m |-> IF k = 0 THEN mem ELSE m1, kp |-> kprev]
         s1 == RunSeq(D1, s0, SubSeq(q, 1, k - 1))
     IN /\ mem' = s1.m
        /\ kprev' = s1.kp
        /\ defs' = D1
-       /\ ghost' = ghost \cup {l}
+       /\ ghost' = {x \in Leaf : x \in ghost \/ x = l}
        /\ UNCHANGED <<reg, frozen>>
-       /\ last' = a @@ [exc |-> "Fault", k |-> k, ran |-> SubSeq(q, 1, k - 1),
-                        failing |-> IF k = 0 THEN "write" ELSE q[k],
-                        trig |-> T, prec |-> Prec(D1, T), cyc |-> StructCyclic(D1, T)]
+       /\ last' = TLCEval(a @@ [exc |-> "Fault", k |-> k, ran |-> SubSeq(q, 1, k - 1),
+                                failing |-> IF k = 0 THEN "write" ELSE q[k],
+                                trig |-> AsSeq(T), prec |-> AsSeq(Prec(D1, T)), cyc |-> StructCyclic(D1, T)])
 
 SetValueFault(l, v) ==
   /\ ~(frozen /\ defs[l] # NoDef)
@@ -349,7 +354,7 @@ C18Prop == [][last'.exc = "Fault" => (reg' = reg /\ frozen' = frozen /\ last'.l 
 
 (* C02: the triggered set is closed under reported edges, contains every direct dependant, nothing else *)
 C02Prop == [][("trig" \in DOMAIN last') =>
-               LET T == last'.trig IN
+               LET T == {last'.trig[i] : i \in 1..Len(last'.trig)} IN
                /\ \A t \in T : t \in Act(defs', reg')
                /\ \A u \in T : \A t \in Act(defs', reg') : Reported(defs', u, t) => t \in T
                /\ \A t \in Act(defs', reg') : TDeps(defs', t) \cap Chain(last'.l) # {} => t \in T]_vars
